@@ -500,6 +500,87 @@ def version_gate(facts, rep):
                    "the payload is decoded only if check_version(DATA_VERSION) holds", b.loc(cv[0]))
 
 
+def value_type_check_is_length_exact(facts, rep):
+    """C12.T: the only validation of a decoded Constant's value is Value::check_type (run by type inference)"""
+    rep.rule("C12.T", "Value::check_type accepts a value only under a length equality: every `Ok(true)` of the function is "
+                      "unreachable when the comparison between the number of children and the number of element types says "
+                      "'different', and a byte-array verdict is itself an equality between bytes.len() and the type's size - a "
+                      "constant that lost or gained children in the payload is rejected, not turned into an ill-typed node")
+    b = facts.body("data_values::Value::check_type")
+    if not rep.anchor("C12.T", "data_values::Value::check_type", b):
+        return
+    fl = Flow(facts, b)
+
+    def from_len(op, at):
+        return any(o[0] == "call" and (o[2] or "").endswith("::len") for o in fl.origins(op, at))
+
+    cmps = []       # (local, is_eq) of Eq/Ne between two lengths;  ordering comparisons are remembered separately
+    ordering = 0
+    for bb, j, place, rv in b.assigns():
+        if rv[0] != "bin" or len(place) != 1 or b.is_cleanup(bb):
+            continue
+        if rv[1] in ("Eq", "Ne") and from_len(rv[2], (bb, j)) and from_len(rv[3], (bb, j)):
+            cmps.append((place[0], rv[1] == "Eq", bb))
+        elif rv[1] in ("Lt", "Le", "Gt", "Ge") and from_len(rv[2], (bb, j)) and from_len(rv[3], (bb, j)):
+            ordering += 1
+    n = 0
+    for bb, j, place, rv in b.assigns():
+        if b.is_cleanup(bb) or not (rv[0] == "agg" and rv[1].get("vn") == "Ok" and rv[2]):
+            continue
+        op = rv[2][0]
+        if op[0] == "k":
+            if op[2] not in ("true", "const true") and str(op[4]) != "1":
+                continue
+            # Ok(true)
+            n += 1
+            ok = False
+            for cl, is_eq, cb in cmps:
+                res = V.executable_under(facts, b, forced={cl: ("b", not is_eq)})
+                if bb not in res.blocks:
+                    ok = True
+            if not ok and not cmps and ordering:
+                rep.note("C12.T: check_type relates the two lengths only by ordering comparisons; not judged")
+                continue
+            rep.ob("C12.T", "check_type|Ok(true)#%d" % n, ok,
+                   "this acceptance is unreachable when children.len() and types.len() differ" if ok else
+                   "check_type can answer Ok(true) without an equality test between the number of children and the number of "
+                   "element types: a composite constant with missing (or extra) children type-checks", b.loc(bb))
+        else:
+            # Ok(<computed bool>): must be an equality involving a length
+            ors = fl.origins(op, (bb, j))
+            bins = [o for o in ors if o[0] == "bin"]
+            if not bins:
+                continue
+            n += 1
+            good = all(b.stmts(o[1])[o[2]][2][1] == "Eq" and
+                       (from_len(b.stmts(o[1])[o[2]][2][2], (o[1], o[2])) or from_len(b.stmts(o[1])[o[2]][2][3], (o[1], o[2])))
+                       for o in bins)
+            rep.ob("C12.T", "check_type|Ok(cmp)#%d" % n, good,
+                   "the byte-array verdict is an equality between bytes.len() and the size computed from the type" if good else
+                   "the byte-array verdict is not an equality on bytes.len(): values of another size are accepted", b.loc(bb))
+    rep.analysed["check_type_acceptance_sites"] = n
+    rep.ob("C12.T", "check_type|acceptance-sites-found", n >= 1, "%d acceptance site(s) analysed" % n, b.loc())
+
+
+def rebuild_order_is_valid(facts, rep):
+    """C12.D = C11.D: the decoder rebuilds graphs and nodes strictly in id order and resolves dependencies against what was
+    rebuilt so far; that only works for contexts in which every dependency precedes its user - which the builder guarantees"""
+    from . import C11
+    from .C06 import _Sub
+    sub = _Sub(rep, "C12")
+    sub.rule("C11.D", "every context the library can build can be rebuilt in id order: add_node_internal refuses a node whose "
+                      "dependency does not precede it, is stored under another id, lives elsewhere, or whose graph dependency is "
+                      "not older / not finalized / in another context (shared with C11.D) - otherwise a context serializes but its "
+                      "own text fails to deserialize")
+    flows = {}
+
+    def flow_of(name):
+        if name not in flows:
+            flows[name] = Flow(facts, facts.bodies[name])
+        return flows[name]
+    C11.dependency_discipline(facts, sub, flow_of)
+
+
 _run_pi = run
 
 
@@ -507,3 +588,5 @@ def run(facts, rep, tier):
     _run_pi(facts, rep, tier)
     derived_serialization_complete(facts, rep)
     version_gate(facts, rep)
+    value_type_check_is_length_exact(facts, rep)
+    rebuild_order_is_valid(facts, rep)
